@@ -288,6 +288,26 @@ def negation_cases(ctx, H):
     return cex, len(inputs)
 
 
+# #project p/n. concerns the atoms p(args,k): with --project the answer sets, cut to the projected atoms, are those of the program without the other choices
+PROJECTED = [('#program always.\n1 { p(1..2) } 1.\n{ q }.\n#project p/1.\n', '#program always.\n1 { p(1..2) } 1.\n', 'p('),
+             ('#program always.\n{ p }.\n-p :- not p.\n{ q(1..2) }.\n#project -p/0.\n#project p/0.\n', '#program always.\n{ p }.\n-p :- not p.\n', 'p@')]
+
+
+def project_cases(ctx, H):
+    cex = []
+    for full, ref, mark in PROJECTED:
+        a = meta.answer_sets(ctx, [[full]], H, timeout=60, args=['--project'])[0]
+        b = meta.answer_sets(ctx, [[ref]], H, timeout=60)[0]
+        if 'ok' in a:
+            a = {'ok': {h: sorted(tuple(x for x in m if mark in x) for m in ms) for h, ms in a['ok'].items()}}
+        if 'ok' in b:
+            b = {'ok': {h: sorted(tuple(x for x in m if mark in x) for m in ms) for h, ms in b['ok'].items()}}
+        if not meta.same(a, b):
+            cex.append({'key': 'c06:project:' + full.replace('\n', ' '), 'what': 'with --project the answer sets cut to the projected atoms differ from those of the program without the other choices: %s' % json.dumps(meta.first_diff(a, b)),
+                        'input': {'projected': [full, ref, mark], 'H': H}})
+    return cex, 2 * len(PROJECTED)
+
+
 def run(ctx):
     S = schemata()
     rng = ctx.rng('combos')
@@ -327,6 +347,9 @@ def run(ctx):
     ncex, nn = negation_cases(ctx, H)
     cex += ncex
     sn += nn
+    pcex, pn = project_cases(ctx, H)
+    cex += pcex
+    sn += pn
     cov = {'evaluations': len(inputs) + sn, 'atom_argument_terms': len(SYMTERMS), 'atom_argument_theory_terms_compared': sn, 'distinct_nontrivial': len(nontriv),
            'rule': '%d rule schemata (variables, arithmetic, comparisons, pools, intervals, classical negation, primes, conditional literals, aggregates, #show/#external, variables in &tel/&del '
                    'bodies and &tel heads, element conditions, n-fold prefixes) in every applicable program part, alone and in random combinations of 2-3, over the domain {1,2}; each paired with '
@@ -337,6 +360,13 @@ def run(ctx):
 
 def replay(ctx, payload):
     inp = payload['input']
+    if 'projected' in inp:
+        global PROJECTED
+        keep, PROJECTED = PROJECTED, [tuple(inp['projected'])]
+        try:
+            return bool(project_cases(ctx, inp.get('H', 2))[0])
+        finally:
+            PROJECTED = keep
     if 'negated' in inp:
         global NEG_RENAMED
         keep, NEG_RENAMED = NEG_RENAMED, [(inp['negated'], inp['renamed'])]
